@@ -255,6 +255,8 @@ pub fn run(prop: &'static str, tier: Tier) -> ! {
             merge(&mut total, a);
         }
         families.push(json!({"family": "C: all ordered modes of exactly 3 patterns from 5 mains x 4 lookaheads", "index_space": n, "inputs": "{a,b,x}^<=5", "start_offsets": "all", "exhaustive": true}));
+    }
+    {
         // lookaheads from G(3), non-nullable, attached to two mains
         let g3: Vec<String> = refsem::families::g_upto(3).into_iter().filter(|p| refsem::sem::Regex::parse(p).map(|r| !r.nullable()).unwrap_or(false)).collect();
         let mut cfgs = vec![];
@@ -263,14 +265,14 @@ pub fn run(prop: &'static str, tier: Tier) -> ! {
                 cfgs.push(Cfg::single(vec![CPat::new("(a)+", 0).with_la(pos, la), CPat::new("[ab]", 1), CPat::new("ab", 2).with_la(!pos, la)]));
             }
         }
-        let ins_d = inputs(&['a', 'b', 'x'], 5);
+        let ins_d = inputs(&['a', 'b', 'x'], if tier == Tier::Quick { 4 } else { 5 });
         let accs = par_for(cfgs.len(), 4, || Acc { samples: Samples::new(1), ..Default::default() }, |acc, i| {
             run_cfg(acc, prop, &cfgs[i], &ins_d, &tables, "D", true, "");
         });
         for a in accs {
             merge(&mut total, a);
         }
-        families.push(json!({"family": "D: every non-nullable pattern of G(3) as positive/negative lookahead of two of three patterns", "configurations": cfgs.len(), "inputs": "{a,b,x}^<=5", "exhaustive": true}));
+        families.push(json!({"family": "D: every non-nullable pattern of G(3) as positive/negative lookahead of two of three patterns", "configurations": cfgs.len(), "inputs": "{a,b,x}^<=4 (thorough 5)", "exhaustive": true}));
     }
 
     // Family S8: two patterns of one mode share a token type and differ in their lookahead. Counted
